@@ -336,6 +336,33 @@ def drive_with_mechanism(w, ws, ck, app, mech):
         import gc
         gc.collect()
         return rec
+    if mech == 'with-held':
+        # the generator object stays referenced (events = ws.connect(...)) while an exception leaves `with ws:`
+        rec = Rec()
+
+        class Boom(Exception):
+            pass
+        events = ws.connect(**ck)
+        rec.gen = events
+        try:
+            with ws:
+                for ev in events:
+                    idx = len(rec.events)
+                    rec.events.append(ev)
+                    w.log.append(('event', idx, ev.name))
+                    try:
+                        app(idx, ev, ws, None)
+                    except Abandon:
+                        raise Boom()
+                rec.stopped = True
+        except Boom:
+            rec.abandoned = True
+        except env.LoopBudget as e:
+            rec.budget = str(e)
+        except Exception as e:
+            rec.exc = e
+        rec.sockets_closed_after_with = [s_.closed for s_ in w.socks if s_.connected]
+        return rec
     raise ValueError(mech)
 
 
@@ -675,6 +702,9 @@ def check_c13(c, w, rec, app, ws, P):
         if s.connected and not s.closed:
             c.fail('C13: socket left open after abandoning the loop at %s by %s (events %s)' % (at, mech, names),
                    sig='C13: socket left open after abandoning at %s' % at)
+    if mech == 'with-held':
+        # the generator is still referenced, so only the socket is required to be released by the with-block exit
+        return cls
     if w.notes.get('selector_created', 0) != w.notes.get('selector_closed', 0):
         c.fail('C13: selector not closed after abandoning the loop at %s by %s (created %d, closed %d)'
                % (at, mech, w.notes.get('selector_created', 0), w.notes.get('selector_closed', 0)),
